@@ -462,8 +462,9 @@ func (me markerExpr) Eval(extras map[string]bool) bool {
 		return me.left.value == me.right.value
 	case markerOpEqualEqualEqual:
 		// The right operand is the text of a specifier: whitespace around
-		// it is not part of the value.
-		return me.left.value == strings.TrimSpace(me.right.value)
+		// it is not part of the value. Arbitrary equality ignores case
+		// (packaging lower-cases both sides).
+		return strings.EqualFold(me.left.value, strings.TrimSpace(me.right.value))
 	case markerOpGreaterEqual:
 		return me.left.value >= me.right.value
 	case markerOpGreater:
